@@ -479,44 +479,61 @@ inline Palette decode_palette(vf::Tape& t, unsigned maxn, bool allow_inf) {
   return p;
 }
 
-inline RunSpec decode_run(vf::Tape& t, const Palette& pal, int family_prime, vf::Ctx& ctx) {
+// Expansion of a few tape bytes into many draws (still a pure function of the tape): lets short tapes assign varied
+// values to hundreds of cells. splitmix64 finaliser.
+inline uint64_t expand(uint64_t seed, uint64_t index) {
+  uint64_t z = seed + 0x9E3779B97F4A7C15ULL * (index + 1);
+  z = (z ^ (z >> 30)) * 0xBF58476D1CE4E5B9ULL;
+  z = (z ^ (z >> 27)) * 0x94D049BB133111EBULL;
+  return z ^ (z >> 31);
+}
+
+// One run = 4-6 tape bytes (short tapes must still reach varied fields and options). Zero bytes: Z_2, default
+// min_interval_length, persistence_dim_max = false.
+inline RunSpec decode_run(vf::Tape& t, const Palette& pal, int family_prime, vf::Ctx& ctx, bool* on_second_carrier = nullptr) {
   static const int small[] = {2, 3, 5, 7, 11, 13};
   static const int medium[] = {17, 251, 1009};
   static const int large[] = {46337, 46327, 32749};
   static const int ranges[][2] = {{2, 3}, {2, 7}, {3, 13}, {5, 5}, {2, 2}, {2, 13}, {4, 6}, {3, 5}};
   RunSpec rs;
-  unsigned kind = t.weighted({6, 3, 1, 1});
+  const uint32_t n = uint32_t(pal.v.size());
+  unsigned kind = unsigned(t.weighted({12, 6, 2, 1}));
+  unsigned x = t.u8();
   if (kind == 0) {
-    rs.field.p = small[t.below(6)];
-    if (family_prime > 0 && t.flip()) rs.field.p = family_prime;
+    rs.field.p = small[x % 6];
+    if (family_prime > 0 && (x / 6) % 2 == 1) rs.field.p = family_prime;
   } else if (kind == 1) {
     rs.field.multi = true;
-    unsigned k = t.below(8);
-    rs.field.lo = ranges[k][0];
-    rs.field.hi = ranges[k][1];
+    rs.field.lo = ranges[x % 8][0];
+    rs.field.hi = ranges[x % 8][1];
   } else if (kind == 2) {
-    rs.field.p = medium[t.below(3)];
+    rs.field.p = medium[x % 3];
   } else {
-    rs.field.p = large[t.below(3)];
+    rs.field.p = large[x % 3];
     ctx.hit("field:large-prime");
   }
-  switch (t.weighted({3, 4, 3, 1, 1})) {
-    case 0: rs.default_min_len = true; rs.min_len = 0; break;
-    case 1: rs.min_len = -1; break;
-    case 2: {  // a difference of two palette values (so that "length == min" happens), possibly negative
-      double a = pal.v[t.below(uint32_t(pal.v.size()))], b = pal.v[t.below(uint32_t(pal.v.size()))];
-      double d = a - b;
+  unsigned y = t.u8();
+  switch (y % 12) {
+    case 0: case 1: case 2: rs.default_min_len = true; rs.min_len = 0; break;
+    case 3: case 4: case 5: case 6: rs.min_len = -1; break;
+    case 7: case 8: case 9: {  // a difference of two palette values (so that "length == min" happens), possibly negative
+      unsigned z = t.u8();
+      double d = pal.v[z % n] - pal.v[(z / n) % n];
       rs.min_len = (d == d) ? d : 0.25;
       break;
     }
-    case 3: rs.min_len = kInf; break;
-    default: rs.min_len = 0.25 * double(t.below(9)); break;
+    case 10: rs.min_len = kInf; break;
+    default: rs.min_len = 0.25 * double((y / 12) % 9); break;
   }
-  rs.dim_max_flag = t.flip();
-  // probes for persistent Betti numbers: two palette values, something off-palette and +-inf now and then
-  rs.probes.push_back(pal.v[t.below(uint32_t(pal.v.size()))]);
-  rs.probes.push_back(pal.v[t.below(uint32_t(pal.v.size()))] + (t.flip() ? 0.125 : 0.0));
-  if (t.chance(1, 4)) rs.probes.push_back(t.flip() ? kInf : -kInf);
+  unsigned w = t.u8();
+  rs.dim_max_flag = (w & 1) != 0;
+  if (on_second_carrier) *on_second_carrier = ((w >> 1) % 3) == 1;
+  // probes for persistent Betti numbers: two palette values (one possibly shifted off the palette), +-inf now and then
+  unsigned u = t.u8();
+  rs.probes.push_back(pal.v[u % n]);
+  rs.probes.push_back(pal.v[(u / n) % n] + (((u >> 6) & 1) ? 0.125 : 0.0));
+  if ((w >> 5) == 5) rs.probes.push_back(kInf);
+  if ((w >> 5) == 6) rs.probes.push_back(-kInf);
   return rs;
 }
 
